@@ -33,6 +33,11 @@ where
     }
 
     fn write_low(&mut self) -> io::Result<()> {
+        #[cfg(feature = "verif")]
+        crate::verif::emit(crate::verif::Event::RcShift {
+            cachesz: self.cachesz,
+            carry: self.low > 0xFFFF_FFFF,
+        });
         if self.low < 0xFF00_0000 || self.low > 0xFFFF_FFFF {
             let mut tmp = self.cache;
             loop {
